@@ -2,7 +2,7 @@
 GENERATED import list — regenerate with `python3 tools/gen_all_imports.py` (from /verif); do not edit the
 imports by hand. `python3 tools/gen_all_imports.py --check` fails if a module on disk is not imported here.
 
-Imports every module of the libraries QmcModel, QmcProofs, QmcProps (132 modules), so that
+Imports every module of the libraries QmcModel, QmcProofs, QmcProps (162 modules), so that
 `lake build QmcAll` certifies that the whole development type-checks in ONE environment: no two modules
 declare the same name (Lean: "environment already contains …"). See design_notes/Cleanup.md.
 
@@ -34,6 +34,7 @@ import QmcModel.Interaction
 import QmcModel.IsingHam
 import QmcModel.Loop
 import QmcModel.Pool
+import QmcModel.ProbTree
 import QmcModel.Proto
 import QmcModel.Rand
 import QmcModel.Rvb
@@ -58,6 +59,9 @@ import QmcProofs.ClusterScan
 import QmcProofs.Common
 import QmcProofs.CommonRand
 import QmcProofs.Composed
+import QmcProofs.ConfigMarginal
+import QmcProofs.ConfigMarginalIsing
+import QmcProofs.ConfigMarginalSlots
 import QmcProofs.Convert
 import QmcProofs.Cutoff
 import QmcProofs.Diagonal
@@ -80,17 +84,26 @@ import QmcProofs.FastOpsVarAssembly
 import QmcProofs.FastOpsVarCanon
 import QmcProofs.FastOpsVarInstall
 import QmcProofs.Generic
+import QmcProofs.Good
 import QmcProofs.HeatBath
 import QmcProofs.Interaction
 import QmcProofs.IsingSSE
 import QmcProofs.KernelInvariance
 import QmcProofs.KernelInvarianceCluster
 import QmcProofs.KernelInvarianceComponents
+import QmcProofs.KernelInvarianceCut
+import QmcProofs.KernelInvarianceCutGood
 import QmcProofs.KernelInvarianceLib
 import QmcProofs.KernelInvarianceMask
 import QmcProofs.KernelInvarianceSlot
 import QmcProofs.KernelInvarianceSpace
 import QmcProofs.KernelInvarianceSweep
+import QmcProofs.LawHeatBath
+import QmcProofs.LawRand
+import QmcProofs.LawRefresh
+import QmcProofs.LawSlot
+import QmcProofs.LawSweep
+import QmcProofs.LawTree
 import QmcProofs.Loop
 import QmcProofs.LoopConsistent
 import QmcProofs.LoopNoPanic
@@ -99,7 +112,22 @@ import QmcProofs.LoopSingleSite
 import QmcProofs.PathSum
 import QmcProofs.Pool
 import QmcProofs.PureFnsAgree
-import QmcProofs.PureFnsAgreeCluster
+import QmcProofs.PureFnsAgree.Cluster
+import QmcProofs.PureFnsAgree.ClusterIsing
+import QmcProofs.PureFnsAgree.Convert
+import QmcProofs.PureFnsAgree.Cutoff
+import QmcProofs.PureFnsAgree.Diag
+import QmcProofs.PureFnsAgree.EnergyGeneric
+import QmcProofs.PureFnsAgree.EnergyIsing
+import QmcProofs.PureFnsAgree.HeatBath
+import QmcProofs.PureFnsAgree.HeatBathIsing
+import QmcProofs.PureFnsAgree.IsingHam
+import QmcProofs.PureFnsAgree.Prelude
+import QmcProofs.PureFnsAgree.RefreshGeneric
+import QmcProofs.PureFnsAgree.RefreshIsing
+import QmcProofs.PureFnsAgree.Rvb
+import QmcProofs.PureFnsAgree.Size
+import QmcProofs.PureFnsAgree.Tempering
 import QmcProofs.Refinement
 import QmcProofs.RefinementBridge
 import QmcProofs.RefinementClusterExact
@@ -125,6 +153,7 @@ import QmcProofs.TemperingStep
 import QmcProofs.Worldline
 import QmcProofs.WorldlineIsing
 import QmcProps.C01
+import QmcProps.C01Capstone
 import QmcProps.C02
 import QmcProps.C03
 import QmcProps.C04
@@ -144,6 +173,7 @@ import QmcProps.C17
 import QmcProps.C18
 import QmcProps.C19
 import QmcProps.C20
+import QmcProps.Law
 
 -- END GENERATED IMPORTS (tools/gen_all_imports.py); everything below is hand-written and kept
 
